@@ -3,7 +3,7 @@
 P=$1; N=$2; S=${3:-5}
 D=/verif/.work/survey-$P; rm -rf $D; mkdir -p $D
 BIN=/verif/.build/dstsim; [ "$P" = C16 ] && BIN=/verif/.build/dstsim-race
-for i in $(seq 0 15); do $BIN batch -prop $P -seed $S -runs $N -first $((i*N)) -out $D -id $i -maxviol 1000000 >/dev/null 2>$D/err-$i.txt & done; wait
+for i in $(seq 0 15); do GOMAXPROCS=1 GORACE="halt_on_error=0 exitcode=0" $BIN batch -prop $P -seed $S -runs $N -first $((i*N)) -out $D -id $i -maxviol 1000000 >/dev/null 2>$D/err-$i.txt & done; wait
 python3 - <<PY
 import json,glob
 sigs={}
